@@ -607,6 +607,15 @@ func check(c Case) pbt.Verdict {
 			return fail("body-context-not-cancelled", "future-cancel returned true while the body was parked, yet the body completed normally with %s: its context was not cancelled", val.Canon(outcomes[0].v))
 		}
 	}
+	// a body that ignores cancellation is still running while it is parked: EVERY future-cancel invoked and answered
+	// in that time returns true, not only the first
+	if c.Body == "ignore" && bodyArrived.Load() != 0 {
+		for _, r := range hist {
+			if r.op == "cancel" && r.call > bodyArrived.Load() && r.ret < bodyReleased.Load() && !r.b {
+				return fail("cancel-false-on-running", "a future-cancel returned false although the body, which ignores cancellation, was still running (parked at its gate)")
+			}
+		}
+	}
 	// a future-done? that returned true before anybody cancelled proves completion: the first cancel
 	// after it must return false and must not mark the future cancelled
 	if firstCancel != nil {
